@@ -325,6 +325,9 @@ class Report:
             replay_paths.append(path)
             print("  " + v["msg"].replace("\n", "\n  ")[:3000])
             print("VIOLATION property=%s replay=%s" % (self.prop, path))
+        allp = os.path.join(VERIF, "replays", self.prop + "-all-violations.txt")
+        if os.path.exists(allp):
+            os.unlink(allp)
         if self.violations:
             with open(os.path.join(VERIF, "replays", self.prop + "-all-violations.txt"), "w") as f:
                 for v in self.violations:
@@ -339,6 +342,7 @@ class Report:
             "reach": self.reach,
             "inconclusive": len(self.inconclusive),
             "inconclusive_reasons": sorted({i["why"] for i in self.inconclusive})[:20],
+            "inconclusive_examples": [str(i.get("detail"))[-700:] for i in self.inconclusive[:3]],
             "violations_new": len(new),
             "violation_keys_new": sorted({v["key"] for v in new}),
             "known_findings_seen": sorted(seen_known),
